@@ -1081,6 +1081,7 @@ _has_traits_trait(has_traits_object *obj, PyObject *args)
                 delegate, trait->delegate_name);
         }
         if (temp_delegate == NULL) {
+            Py_DECREF(trait);
             break;
         }
         Py_DECREF(delegate);
@@ -1088,6 +1089,7 @@ _has_traits_trait(has_traits_object *obj, PyObject *args)
 
         if (!PyHasTraits_Check(delegate)) {
             bad_delegate_error2(obj, name);
+            Py_DECREF(trait);
             break;
         }
 
